@@ -79,7 +79,10 @@ func (l *Loop) exits() []exitEdge {
 
 type DecodeFacts struct {
 	Reader      *ssa.Function
-	Loops       []*Loop
+	LoopFn      *ssa.Function // function holding the decode loop: the reader or a helper it calls
+	Chain       []*ssa.Call   // call sites leading from the reader to LoopFn (empty when LoopFn == Reader)
+	ReaderLoops []*Loop       // loops of the reader function
+	Loops       []*Loop       // loops of LoopFn
 	Loop        *Loop
 	RecordConv  ssa.Value      // the *unix.InotifyEvent pointer
 	RecordIdx   *ssa.IndexAddr // &buf[offset]
@@ -127,30 +130,50 @@ func decodeFacts(a *An) *DecodeFacts {
 		return nil
 	}
 	rd := ro.Readers[0]
-	df := &DecodeFacts{Reader: rd, Loops: naturalLoops(rd)}
-	for _, b := range rd.Blocks {
-		for _, in := range b.Instrs {
-			cv, ok := in.(*ssa.Convert)
-			if !ok {
-				continue
+	df := &DecodeFacts{Reader: rd, ReaderLoops: naturalLoops(rd)}
+	// the decode loop lives in the reader or in a package-local helper it (transitively) calls
+	type cand struct {
+		fn    *ssa.Function
+		chain []*ssa.Call
+	}
+	seen := map[*ssa.Function]bool{rd: true}
+	queue := []cand{{rd, nil}}
+	for len(queue) > 0 {
+		cur := queue[0]
+		queue = queue[1:]
+		for _, b := range cur.fn.Blocks {
+			for _, in := range b.Instrs {
+				if call, ok := in.(*ssa.Call); ok && len(cur.chain) < 3 {
+					if cal := call.Call.StaticCallee(); cal != nil && a.P.inMain(cal) && cal.Blocks != nil && !seen[cal] {
+						seen[cal] = true
+						queue = append(queue, cand{cal, append(append([]*ssa.Call(nil), cur.chain...), call)})
+					}
+				}
+				cv, ok := in.(*ssa.Convert)
+				if !ok {
+					continue
+				}
+				n, ok := isNamedPtr(cv.Type(), "golang.org/x/sys/unix", "InotifyEvent")
+				if !ok {
+					continue
+				}
+				base := stripConv(cv.X)
+				ia, ok := base.(*ssa.IndexAddr)
+				if !ok {
+					continue
+				}
+				if df.RecordConv != nil {
+					a.R.fail("anchor unresolved: more than one conversion of a buffer address to *unix.InotifyEvent under %s", shortFn(rd))
+					return nil
+				}
+				df.RecordConv = cv
+				df.RecordIdx = ia
+				df.RecordType = n
+				df.LoopFn = cur.fn
+				df.Chain = cur.chain
+				df.Loops = naturalLoops(cur.fn)
+				df.Loop = innermostLoop(df.Loops, b)
 			}
-			n, ok := isNamedPtr(cv.Type(), "golang.org/x/sys/unix", "InotifyEvent")
-			if !ok {
-				continue
-			}
-			base := stripConv(cv.X)
-			ia, ok := base.(*ssa.IndexAddr)
-			if !ok {
-				continue
-			}
-			if df.RecordConv != nil {
-				a.R.fail("anchor unresolved: more than one conversion of a buffer address to *unix.InotifyEvent in %s", shortFn(rd))
-				return nil
-			}
-			df.RecordConv = cv
-			df.RecordIdx = ia
-			df.RecordType = n
-			df.Loop = innermostLoop(df.Loops, b)
 		}
 	}
 	if df.RecordConv == nil || df.Loop == nil {
@@ -257,12 +280,44 @@ func (df *DecodeFacts) recordField(v ssa.Value, name string) bool {
 	return fieldName(fa.X.Type(), fa.Field) == name
 }
 
-// visitOf finds the root-level visit of an instruction of the reader.
+// visitOf finds the shallowest visit of an instruction (of the reader, or of the helper holding the decode loop).
 func visitOf(w *Walker, in ssa.Instruction) *Visit {
+	var best *Visit
 	for _, v := range w.Visits {
-		if v.Instr == in && v.Ctx.Parent == nil {
-			return v
+		if v.Instr == in && (best == nil || v.Ctx.Depth < best.Ctx.Depth) {
+			best = v
 		}
 	}
-	return nil
+	return best
+}
+
+// loopCtx: the context of the function holding the decode loop, as inlined from the reader root.
+func (df *DecodeFacts) loopCtx(root *Ctx) *Ctx {
+	c := root
+	for _, site := range df.Chain {
+		k := c.calleeCtx(site, &site.Call)
+		if k == nil {
+			return c
+		}
+		c = k
+	}
+	return c
+}
+
+// inReader resolves a value of the decode-loop function to the reader's value it is bound to.
+func (df *DecodeFacts) inReader(e *Engine, v ssa.Value) ssa.Value {
+	v = stripConv(v)
+	if len(df.Chain) == 0 {
+		return v
+	}
+	c := df.loopCtx(e.rootCtx(df.Reader))
+	for i := 0; i < 4; i++ {
+		rv, rc := c.resolve(v)
+		rv = stripConv(rv)
+		if rv == v && rc == c {
+			break
+		}
+		v, c = rv, rc
+	}
+	return v
 }
